@@ -83,10 +83,35 @@ pub fn run(ctx: &Ctx) -> Outcome {
                     let want_out = rf::x(&data[..m * bs], &want_ks);
                     rep.outcome(&want_ctr[0]);
                     // through the core: apply_keystream_blocks (in place / inout) and write_keystream_blocks
-                    for how in 0..3 {
+                    // how the index is reached: 0 = one set_block_pos on a fresh core; 1 = a position further on first, then a
+                    // BACKWARD set_block_pos; 2 = set_block_pos a little before and generate up to the index; 3 = generate a
+                    // block at the start, then a forward set_block_pos  (1..3 for the in-place form only)
+                    for (how, reach) in [(0, 0), (1, 0), (2, 0), (0, 1), (0, 2), (0, 3)] {
                         rep.case(|| {
                             let mut core = rec::core(cfg, d, key, iv);
-                            ensure!(core.set_block_pos(s), "MACHINERY", "harness: block position does not fit");
+                            match reach {
+                                1 => {
+                                    let ahead = s.checked_add(par as u128 + 3).filter(|a| *a < lim).unwrap_or(lim - 1);
+                                    ensure!(core.set_block_pos(ahead), "MACHINERY", "harness: block position does not fit");
+                                    let mut one = dirty(bs);
+                                    if ahead < lim - 1 {
+                                        core.write_block(&mut one);
+                                    }
+                                    ensure!(core.set_block_pos(s), "MACHINERY", "harness: block position does not fit");
+                                }
+                                2 => {
+                                    let k = s.min(2);
+                                    ensure!(core.set_block_pos(s - k), "MACHINERY", "harness: block position does not fit");
+                                    let mut pre = dirty(k as usize * bs);
+                                    core.write_blocks(&mut pre);
+                                }
+                                3 => {
+                                    let mut one = dirty(bs);
+                                    core.write_block(&mut one);
+                                    ensure!(core.set_block_pos(s), "MACHINERY", "harness: block position does not fit");
+                                }
+                                _ => ensure!(core.set_block_pos(s), "MACHINERY", "harness: block position does not fit"),
+                            }
                             toy::log_start();
                             let mut out = match how {
                                 0 => data[..m * bs].to_vec(),
@@ -130,6 +155,13 @@ pub fn run(ctx: &Ctx) -> Outcome {
                             let mut st = rec::stream(cfg, d, key, iv);
                             let r = st.seek(SeekTy::U128, p).expect("harness: seekable");
                             ensure!(r.is_ok(), format!("seek_refused/{}", d.mode), "{}: seek to block {} refused", d.ty, s);
+                            if m == 1 {
+                                // arrive a second time: an unaligned position in a later block (or in this one), then back
+                                let later = if s.checked_add(2).map(|e| e < lim).unwrap_or(false) { p.checked_add(bs as u128 + bs as u128 / 2) } else { p.checked_add(bs as u128 / 2) };
+                                let _ = st.seek(SeekTy::U128, later.unwrap_or(0)).expect("harness: seekable");
+                                let r = st.seek(SeekTy::U128, p).expect("harness: seekable");
+                                ensure!(r.is_ok(), format!("seek_refused/{}", d.mode), "{}: seek back to block {} refused", d.ty, s);
+                            }
                             let mut out = data[..m * bs].to_vec();
                             ensure!(st.apply(Kind::InPlace, &[], &mut out).is_ok(), format!("request_refused/{}", d.mode), "{}: {} blocks at index {} refused", d.ty, m, s);
                             ensure!(out == want_out, format!("keystream_wrong/{}/stream", d.mode), "{} iv={} (field {}) blocks {}..+{} through the byte-level cipher: {} want {}", d.ty, short(iv), ivn, s, m, short(&out), short(&want_out));
